@@ -597,6 +597,43 @@ func checkEntryHops(c *Ctx) {
 				}
 			}
 		}
+		// ... or the run is assembled by a helper that is handed ToHops' slice and stores that parameter, unchanged, as Hops
+		for _, b := range f.Blocks {
+			for _, in := range b.Instrs {
+				call, ok := in.(*ssa.Call)
+				if !ok || call.Common().IsInvoke() {
+					continue
+				}
+				g := call.Common().StaticCallee()
+				if g == nil || !core.InModule(g) || len(g.Blocks) == 0 {
+					continue
+				}
+				for k, a := range call.Common().Args {
+					ex, ok := a.(*ssa.Extract)
+					if !ok || ex.Tuple != ssa.Value(toHops) || ex.Index != 0 || k >= len(g.Params) {
+						continue
+					}
+					nst, okst := 0, 0
+					for _, gb := range g.Blocks {
+						for _, gin := range gb.Instrs {
+							st, ok := gin.(*ssa.Store)
+							if !ok {
+								continue
+							}
+							if fa, ok := st.Addr.(*ssa.FieldAddr); ok && isNamed(fa.X.Type(), core.ModulePath+"/result", "TracerouteRun") && core.FieldName(fa) == "Hops" {
+								nst++
+								if st.Val == ssa.Value(g.Params[k]) {
+									okst++
+								}
+							}
+						}
+					}
+					if nst > 0 && nst == okst {
+						found = true
+					}
+				}
+			}
+		}
 		R.Check(found, "R03.4", fn+"#hops", toHops.Pos(), fn, "TracerouteRun.Hops = ToHops(...) unmodified", "the returned run's Hops is not ToHops' slice")
 	}
 	R.Floor("R03.4:entry-points", n, 4)
